@@ -138,4 +138,469 @@ theorem csvCells_at {conv : Conv} {gR gI gQ : Bytes → Res Nat} {gC : Bytes →
           simp only [hq3', Bool.false_and, Bool.false_eq_true, if_false]
           exact ih (q3 + 1) xs _ a3.tail (fun y hy => hs y (hsub y hy)) (fun y hy => hn y (hsub y hy))
 
+/-! ## the line loop -/
+
+def csvRec (l : CsvLine) : LineRec :=
+  { label := l.label, weight := if isNaNBits l.weight then none else some l.weight, qid := none, fields := [],
+    idx := l.feats.reverse.map (·.1), vals := l.feats.reverse.map (·.2) }
+
+theorem csvPush_eq (c : Container) (l : CsvLine) : csvPush c l = addRow c (csvRec l) := by
+  cases hl : l.label <;> by_cases hw : isNaNBits l.weight = true <;> simp [csvPush, addRow, csvRec, hl, hw]
+
+theorem foldl_csvPush (ls : List CsvLine) (c : Container) : ls.foldl csvPush c = (ls.map csvRec).foldl addRow c := by
+  induction ls generalizing c with
+  | nil => rfl
+  | cons l ls ih => simp only [List.foldl_cons, List.map_cons, ih, csvPush_eq]
+
+/-- `IgnoreUTF8BOM` on the bytes of a line -/
+def dropBOM (l : Bytes) : Bytes :=
+  if Gen.Parse.bomLen ≤ l.length && (l.take Gen.Parse.bomLen).map UInt8.toNat == Gen.Parse.bomBytes then
+    l.drop Gen.Parse.bomLen else l
+
+theorem ignoreBOM_at {mem : Bytes} {p stop : Nat} {S : Bytes} (h : At mem p stop S) :
+    At mem (ignoreBOM mem p stop) stop (dropBOM S) := by
+  unfold ignoreBOM dropBOM
+  have hl := h.2
+  have hcond : (p + Gen.Parse.bomLen ≤ stop) = (Gen.Parse.bomLen ≤ S.length) := by
+    apply propext; constructor <;> intro hh <;> omega
+  by_cases hlen : Gen.Parse.bomLen ≤ S.length
+  · have htake : (mem.drop p).take Gen.Parse.bomLen = S.take Gen.Parse.bomLen := by
+      rw [h.1, List.take_append_of_le_length hlen]
+    simp only [hcond, hlen, decide_true, Bool.true_and, htake]
+    by_cases hm : ((S.take Gen.Parse.bomLen).map UInt8.toNat == Gen.Parse.bomBytes) = true
+    · simp only [hm, if_true]; exact h.drop _ hlen
+    · simp only [hm, if_false, Bool.false_eq_true]; exact h
+  · simp only [hcond, hlen, decide_false, Bool.false_and, Bool.false_eq_true, if_false]; exact h
+
+/-- one csv line (repaired source): BOM skip, then the cell loop; a line that is nothing but a BOM is an empty line -/
+def csvLineS (gC : Bytes → Res (Nat × Nat)) (prm : CsvParam) (l : Bytes) : Res (Option CsvLine) :=
+  match dropBOM l with
+  | [] => .ok none
+  | c :: l' => (csvCellsS gC prm ((c :: l').length + 1) (c :: l') {}).map some
+
+theorem bom_not_eol : ∀ x ∈ Gen.Parse.bomBytes, x ≠ 10 ∧ x ≠ 13 := by decide
+
+/-- the BOM test looks at the line only: the byte behind the line is an end-of-line byte or nothing -/
+theorem dropBOM_append (l R : Bytes) (hR : ∀ b, R.head? = some b → isEolB b = true) :
+    dropBOM (l ++ R) = dropBOM l ++ R := by
+  unfold dropBOM
+  have h3 : Gen.Parse.bomLen = 3 := rfl
+  have hb : Gen.Parse.bomBytes = [239, 187, 191] := rfl
+  have hhead : ∀ b, R.head? = some b → b.toNat = 10 ∨ b.toNat = 13 := by
+    intro b hb'
+    have := (isEolB_iff b).mp (hR b hb')
+    rcases this with rfl | rfl <;> simp
+  rw [h3, hb]
+  rcases l with _ | ⟨a, _ | ⟨b, _ | ⟨c, l⟩⟩⟩
+  · rcases R with _ | ⟨x, _ | ⟨y, _ | ⟨z, R⟩⟩⟩ <;> simp
+    have := hhead x rfl; intro h1; omega
+  · rcases R with _ | ⟨x, _ | ⟨y, R⟩⟩ <;> simp
+    have := hhead x rfl; intro _ h1; omega
+  · rcases R with _ | ⟨x, R⟩ <;> simp
+    have := hhead x rfl; intro _ _ h1; omega
+  · by_cases hm : a.toNat = 239 ∧ b.toNat = 187 ∧ c.toNat = 191 <;> simp [hm]
+
+def csvLinesOf (S : Bytes) : List Bytes := (eolSplit S).filter fun l => !l.isEmpty
+
+theorem eolSplit_noEolLine (l : Bytes) (h : ∀ b ∈ l, isEolB b = false) : eolSplit l = [l] := by
+  have : ∀ cur, eolSplitGo l cur = [cur.reverse ++ l] := by
+    induction l with
+    | nil => intro cur; simp [eolSplitGo]
+    | cons b l ih =>
+      intro cur
+      simp only [eolSplitGo, h b (by simp), Bool.false_eq_true, if_false]
+      rw [ih (fun x hx => h x (by simp [hx]))]; simp
+  simpa [eolSplit] using this []
+
+theorem csvLinesOf_nil : csvLinesOf [] = [] := by decide
+
+theorem csvLinesOf_eol (e : UInt8) (X : Bytes) (he : isEolB e = true) : csvLinesOf (e :: X) = csvLinesOf X := by
+  simp [csvLinesOf, eolSplit_eol_cons X e he]
+
+theorem csvLinesOf_dropEol (R : Bytes) : csvLinesOf (R.dropWhile isEolB) = csvLinesOf R := by
+  induction R with
+  | nil => rfl
+  | cons e R ih =>
+    by_cases he : isEolB e = true
+    · simp only [List.dropWhile, he]; rw [ih, csvLinesOf_eol e R he]
+    · simp [List.dropWhile, he]
+
+theorem csvLinesOf_line (l R : Bytes) (hl : ∀ b ∈ l, isEolB b = false) (hne : l ≠ [])
+    (hR : ∀ b, R.head? = some b → isEolB b = true) :
+    csvLinesOf (l ++ R) = l :: csvLinesOf (R.dropWhile isEolB) := by
+  rw [csvLinesOf_dropEol]
+  cases R with
+  | nil =>
+    have hne' : l.isEmpty = false := by cases l <;> simp_all
+    rw [List.append_nil, csvLinesOf_nil]
+    simp [csvLinesOf, eolSplit_noEolLine l hl, hne']
+  | cons e R =>
+    have he := hR e rfl
+    have hne' : l.isEmpty = false := by cases l <;> simp_all
+    rw [csvLinesOf_eol e R he]
+    simp [csvLinesOf, eolSplit_append_eol l R e he, eolSplit_noEolLine l hl, hne']
+
+theorem mem_takeWhile_pred (pred : UInt8 → Bool) (s : Bytes) (x : UInt8) (h : x ∈ s.takeWhile pred) : pred x = true := by
+  induction s with
+  | nil => simp at h
+  | cons b s ih =>
+    by_cases hb : pred b = true
+    · simp only [List.takeWhile, hb, List.mem_cons] at h
+      rcases h with rfl | h
+      · exact hb
+      · exact ih h
+    · simp [List.takeWhile, hb] at h
+
+theorem dropBOM_suffix (l : Bytes) : dropBOM l <:+ l := by
+  unfold dropBOM; split
+  · exact List.drop_suffix _ _
+  · exact List.suffix_refl _
+
+theorem dropWhile_append_all (pred : UInt8 → Bool) (s R : Bytes) (hs : ∀ b ∈ s, pred b = true)
+    (hR : ∀ b, R.head? = some b → pred b = false) : (s ++ R).dropWhile pred = R := by
+  rw [dropWhile_append_stop pred s R hR, dropWhile_all pred s hs]; rfl
+
+theorem leadIsEol_fun : (fun b : UInt8 => Gen.Parse.csvLeadIsEol b.toNat) = isEolB := by
+  funext b; exact csvLeadIsEol_eq b
+theorem trailIsEol_fun : (fun b : UInt8 => Gen.Parse.csvTrailIsEol b.toNat) = isEolB := by
+  funext b; exact csvTrailIsEol_eq b
+theorem csvNotEol_fun : (fun b : UInt8 => Gen.Parse.csvNotEol b.toNat) = notEolB := by
+  funext b; simp [notEolB, csvNotEol_eq]
+
+theorem dropWhile_eol_head (R : Bytes) : ∀ b, (R.dropWhile isEolB).head? = some b → isEolB b = false := by
+  intro b hb
+  cases hd : R.dropWhile isEolB with
+  | nil => rw [hd] at hb; simp at hb
+  | cons x xs => rw [hd] at hb; simp at hb; subst hb; exact dropWhile_head_false _ _ _ _ hd
+
+/-- the csv line loop (repaired source) on a NUL-free remainder `S` of the block that does not start with an
+end-of-line byte -/
+theorem csvLoop_spec {conv : Conv} {gR gI gQ : Bytes → Res Nat} {gC : Bytes → Res (Nat × Nat)}
+    (hL : conv.LocalWith gR gI gQ gC) (prm : CsvParam) {mem : Bytes} {stop : Nat} (ht : Term mem stop)
+    (hr : stop < mem.length) (hb : stop < 2 ^ 64) :
+    ∀ (fuel lbegin : Nat) (S : Bytes) (c : Container), At mem lbegin stop S → S.length < fuel →
+      (∀ b ∈ S, b ≠ 0) → (∀ b, S.head? = some b → isEolB b = false) →
+      csvLoop Fixes.repaired conv prm mem stop fuel lbegin c =
+        ((csvLinesOf S).mapM (csvLineS gC prm)).map (fun outs => (outs.filterMap id).foldl csvPush c) := by
+  intro fuel
+  induction fuel with
+  | zero => intro _ _ _ _ hf; omega
+  | succ fuel ih =>
+    intro lbegin S c h hf hn hh
+    have hfx : Fixes.repaired.csvBomGuard = true := rfl
+    cases S with
+    | nil =>
+      have : lbegin = stop := h.eq_stop_iff.mpr rfl
+      simp [csvLoop, this, csvLinesOf_nil, pure, Except.pure, Except.map]
+    | cons b S' =>
+      have hne : lbegin ≠ stop := by intro e; have := h.eq_stop_iff.mp e; simp at this
+      have hbne : isEolB b = false := hh b rfl
+      -- the line and the rest
+      have hR : ∀ x, (S'.dropWhile notEolB).head? = some x → isEolB x = true := by
+        intro x hx
+        cases hd : S'.dropWhile notEolB with
+        | nil => rw [hd] at hx; simp at hx
+        | cons y r =>
+          rw [hd] at hx; simp at hx; subst hx
+          have := dropWhile_head_false _ _ _ _ hd
+          simpa [notEolB] using this
+      have hlEol : ∀ x ∈ b :: S'.takeWhile notEolB, isEolB x = false := by
+        intro x hx
+        simp at hx
+        rcases hx with rfl | hx
+        · exact hbne
+        · have := mem_takeWhile_pred notEolB S' x hx; simpa [notEolB] using this
+      have hSplit : b :: S' = (b :: S'.takeWhile notEolB) ++ S'.dropWhile notEolB := by
+        simp [List.takeWhile_append_dropWhile]
+      have hlines := csvLinesOf_line (b :: S'.takeWhile notEolB) (S'.dropWhile notEolB) hlEol (by simp) hR
+      rw [← hSplit] at hlines
+      have hsubl : ∀ x ∈ b :: S'.takeWhile notEolB, x ∈ b :: S' := by
+        intro x hx; simp only [List.mem_cons] at hx ⊢; rcases hx with rfl | hx
+        · exact Or.inl rfl
+        · exact Or.inr ((List.takeWhile_prefix notEolB).subset hx)
+      have hsubR : ∀ x ∈ S'.dropWhile notEolB, x ∈ b :: S' := by
+        intro x hx; exact List.mem_cons_of_mem _ ((List.dropWhile_suffix notEolB).subset hx)
+      have hRlen : ((S'.dropWhile notEolB).dropWhile isEolB).length < fuel := by
+        have h1 := (List.dropWhile_suffix (l := S'.dropWhile notEolB) isEolB).length_le
+        have h2 := (List.dropWhile_suffix (l := S') notEolB).length_le
+        simp at hf; omega
+      have hRnul : ∀ x ∈ (S'.dropWhile notEolB).dropWhile isEolB, x ≠ 0 := fun x hx =>
+        hn x (hsubR x ((List.dropWhile_suffix _).subset hx))
+      -- BOM
+      have a0 := ignoreBOM_at h
+      rw [hSplit, dropBOM_append _ _ hR] at a0
+      rw [hlines, List.mapM_cons]
+      simp only [csvLoop, hne, if_false, hfx, if_true, bind, Except.bind, pure, Except.pure, leadIsEol_fun,
+        trailIsEol_fun, csvNotEol_fun]
+      have hsuf := dropBOM_suffix (b :: S'.takeWhile notEolB)
+      cases hdb : dropBOM (b :: S'.takeWhile notEolB) with
+      | nil =>
+        rw [hdb] at a0
+        simp only [List.nil_append] at a0
+        obtain ⟨q, eq, aq⟩ := scan_at (pred := isEolB) a0
+        have htail : csvLoop Fixes.repaired conv prm mem stop fuel q c =
+            Except.map (fun outs => List.foldl csvPush c (List.filterMap id outs))
+              (match (csvLinesOf ((S'.dropWhile notEolB).dropWhile isEolB)).mapM (csvLineS gC prm) with
+               | .error err => .error err
+               | .ok v => .ok (none :: v)) := by
+          rw [ih q _ c aq hRlen hRnul (dropWhile_eol_head _)]
+          cases ((csvLinesOf ((S'.dropWhile notEolB).dropWhile isEolB)).mapM (csvLineS gC prm)) with
+          | error e => rfl
+          | ok outs => simp [Except.map]
+        cases hRd : S'.dropWhile notEolB with
+        | nil =>
+          rw [hRd] at a0 htail
+          have e0 : ignoreBOM mem lbegin stop = stop := a0.eq_stop_iff.mpr rfl
+          simp only [e0, if_true, csvLineS, hdb] at eq ⊢
+          simp only [eq]
+          exact htail
+        | cons x xs =>
+          rw [hRd] at a0 htail
+          have ne0 : ignoreBOM mem lbegin stop ≠ stop := by intro e; have := a0.eq_stop_iff.mp e; simp at this
+          have hx : Gen.Parse.csvLeadIsEol x.toNat = true := by
+            rw [csvLeadIsEol_eq]; exact hR x (by rw [hRd]; rfl)
+          simp only [ne0, if_false, byteAt_at a0, hx, if_true, csvLineS, hdb, eq]
+          rw [htail]
+          cases ((csvLinesOf ((x :: xs).dropWhile isEolB)).mapM (csvLineS gC prm)) <;> rfl
+      | cons c0 l'' =>
+        rw [hdb] at a0 hsuf
+        have hc0 : ∀ x ∈ c0 :: l'', x ∈ b :: S'.takeWhile notEolB := fun x hx => hsuf.subset hx
+        have hne0 : ignoreBOM mem lbegin stop ≠ stop := by intro e; have := a0.eq_stop_iff.mp e; simp at this
+        have a0' : At mem (ignoreBOM mem lbegin stop) stop (c0 :: (l'' ++ S'.dropWhile notEolB)) := by simpa using a0
+        obtain ⟨lend, e1, a1⟩ := scan_at (pred := notEolB) a0'.tail
+        rw [dropWhile_append_all notEolB l'' _ (fun x hx => by
+              have := hlEol x (hc0 x (by simp [hx])); simp [notEolB, this])
+            (fun x hx => by simp [notEolB, hR x hx])] at a1
+        have aL : At mem (ignoreBOM mem lbegin stop) lend (c0 :: l'') := by
+          have : At mem (ignoreBOM mem lbegin stop) stop ((c0 :: l'') ++ S'.dropWhile notEolB) := a0
+          exact this.unappend a1
+        have htl := term_of_rest a1 hR ht
+        have hlend : lend ≤ stop := by have := a1.2; omega
+        have hfuel : lend + 1 - ignoreBOM mem lbegin stop = (c0 :: l'').length + 1 := by have := aL.2; omega
+        obtain ⟨q, eq, aq⟩ := scanRd_at (pred := isEolB) a1 hr
+        have hc0e : Gen.Parse.csvLeadIsEol c0.toNat = false := by
+          rw [csvLeadIsEol_eq]; exact hlEol c0 (hc0 c0 (by simp))
+        simp only [hne0, byteAt_at a0', hc0e, Bool.false_eq_true, if_false, e1, hfuel,
+          csvCells_at hL prm htl (by omega) (by omega) _ _ _ _ aL
+            (fun x hx => hlEol x (hc0 x hx)) (fun x hx => hn x (hsubl x (hc0 x hx))), csvLineS, hdb]
+        cases hcl : csvCellsS gC prm ((c0 :: l'').length + 1) (c0 :: l'') {} with
+        | error e => simp [Except.map]
+        | ok cl =>
+          simp only [eq, Except.map]
+          rw [ih q _ _ aq hRlen hRnul (dropWhile_eol_head _)]
+          cases ((csvLinesOf ((S'.dropWhile notEolB).dropWhile isEolB)).mapM (csvLineS gC prm)) with
+          | error e => rfl
+          | ok outs => simp [Except.map]
+
+/-! ## the block -/
+
+theorem flatMap_toList_length_le (g : LineRec → Option Nat) (recs : List LineRec) :
+    (recs.flatMap (fun r => (g r).toList)).length ≤ recs.length := by
+  induction recs with
+  | nil => simp
+  | cons r rs ih =>
+    cases h : g r
+    · simp only [List.flatMap_cons, h, Option.toList_none, List.nil_append, List.length_cons]; omega
+    · simp only [List.flatMap_cons, h, Option.toList_some, List.singleton_append, List.length_cons]; omega
+
+/-- the two CHECKs that close `CSVParser::ParseBlock` are repeated by `GetBlock` (C13-1): a block that fails
+them is rejected either way -/
+theorem csv_checks_absorb (recs : List LineRec) (hb : recs.length + 2 < 2 ^ 64) :
+    ((if !Gen.Parse.csvLabelCheck (build recs).label.length (build recs).offset.length then (.error .check : Res Container)
+      else if !Gen.Parse.csvWeightCheck (build recs).weight.length (build recs).offset.length then .error .check
+      else pure (build recs)).bind rowsOf) = rowsOf (build recs) := by
+  have hlab : (build recs).label.length ≤ recs.length := by rw [build_eq]; exact flatMap_toList_length_le _ recs
+  have hoff : (build recs).offset.length = recs.length + 1 := by rw [build_eq]; simp [sums_length]
+  have hlast : (build recs).offset.getLast? = some (recs.flatMap (·.idx)).length := by
+    rw [build_eq]; simpa using getLast_sums 0 recs
+  have hmod : ((build recs).label.length + 1) % 18446744073709551616 = (build recs).label.length + 1 :=
+    Nat.mod_eq_of_lt (by omega)
+  by_cases h1 : Gen.Parse.csvLabelCheck (build recs).label.length (build recs).offset.length = true
+  · by_cases h2 : Gen.Parse.csvWeightCheck (build recs).weight.length (build recs).offset.length = true
+    · simp [h1, h2, pure, Except.pure, Except.bind]
+    · have hg : getBlockOk (build recs) = false := by
+        have h2' : Gen.Parse.gbWeightCheck (build recs).weight.length (build recs).offset.length = false := by
+          have : Gen.Parse.gbWeightCheck (build recs).weight.length (build recs).offset.length
+              = Gen.Parse.csvWeightCheck (build recs).weight.length (build recs).offset.length := rfl
+          rw [this]; simpa using h2
+        simp [getBlockOk, hlast, h2']
+      simp [h1, h2, Except.bind, rowsOf, hg]
+  · have hg : getBlockOk (build recs) = false := by
+      have : ((build recs).label.length == 0 || (build recs).label.length + 1 == (build recs).offset.length) = false := by
+        simp only [Gen.Parse.csvLabelCheck, u64, hmod] at h1
+        simpa using h1
+      simp [getBlockOk, hlast, this]
+    simp [h1, Except.bind, rowsOf, hg]
+
+def csvRowsAt (fx : Fixes) (conv : Conv) (prm : CsvParam) (mem : Bytes) (a b : Nat) : Res (List Row) :=
+  (csvBlock fx conv prm mem a b).bind rowsOf
+
+def csvRows (fx : Fixes) (conv : Conv) (prm : CsvParam) (t : Bytes) : Res (List Row) :=
+  csvRowsAt fx conv prm (t ++ [0]) 0 t.length
+
+theorem csvLinesOf_length (t : Bytes) : (csvLinesOf t).length ≤ t.length := by
+  have h2 : ∀ s cur, ((eolSplitGo s cur).filter fun l => !l.isEmpty).length ≤ s.length + (if cur.isEmpty then 0 else 1) := by
+    intro s
+    induction s with
+    | nil => intro cur; cases cur <;> simp [eolSplitGo]
+    | cons b s ih =>
+      intro cur
+      by_cases hb : isEolB b = true
+      · have := ih []
+        cases cur with
+        | nil => simp [eolSplitGo, hb] at this ⊢; omega
+        | cons c cur =>
+          simp only [eolSplitGo, hb, if_true, List.filter_cons]
+          simp at this ⊢; omega
+      · have := ih (b :: cur)
+        simp only [eolSplitGo, hb, Bool.false_eq_true, if_false]
+        simp at this ⊢; split <;> omega
+  have := h2 t []
+  simpa [csvLinesOf, eolSplit] using this
+
+theorem csv_block_eq_at {conv : Conv} {gR gI gQ : Bytes → Res Nat} {gC : Bytes → Res (Nat × Nat)}
+    (hL : conv.LocalWith gR gI gQ gC) (prm : CsvParam) {mem : Bytes} {a b : Nat} {t : Bytes}
+    (hAt : At mem a b t) (hT : Term mem b) (hr : b < mem.length) (hb : b < 2 ^ 64) (hlen : t.length + 2 < 2 ^ 64)
+    (hn : ∀ x ∈ t, x ≠ 0) :
+    csvRowsAt Fixes.repaired conv prm mem a b =
+      ((csvLinesOf t).mapM (csvLineS gC prm)).bind fun outs => rowsOf (build ((outs.filterMap id).map csvRec)) := by
+  obtain ⟨q, eq, aq⟩ := scan_at (pred := isEolB) hAt
+  have hfuel : (t.dropWhile isEolB).length < mem.length + 2 - q := by have := aq.2; omega
+  have hloop := csvLoop_spec hL prm hT hr hb (mem.length + 2 - q) q _ {} aq hfuel
+    (fun x hx => hn x ((List.dropWhile_suffix _).subset hx)) (dropWhile_eol_head t)
+  unfold csvRowsAt csvBlock
+  simp only [leadIsEol_fun, eq, bind, Except.bind, hloop, csvLinesOf_dropEol]
+  cases hm : (csvLinesOf t).mapM (csvLineS gC prm) with
+  | error e => simp [Except.map]
+  | ok outs =>
+    have hl1 : (outs.filterMap id).length ≤ t.length := by
+      have h1 := List.length_filterMap_le id outs
+      have h2 := mapM_length _ _ _ hm
+      have h3 := csvLinesOf_length t
+      omega
+    simp only [Except.map, foldl_csvPush]
+    exact csv_checks_absorb ((outs.filterMap id).map csvRec) (by simp; omega)
+
+/-! ## csv as a `LineFormat` (NUL-free texts) -/
+
+def nonNulB (b : UInt8) : Bool := b != 0
+
+def csvRecS (gC : Bytes → Res (Nat × Nat)) (prm : CsvParam) (L : Bytes) : Res (Option LineRec) :=
+  (csvLineS gC prm (L.dropWhile isEolB)).map (Option.map csvRec)
+
+theorem codeLinesGo_tail (s cur : Bytes) (hc : ∀ x ∈ cur.reverse.tail, isEolB x = false) :
+    ∀ L ∈ codeLinesGo s cur, ∀ x ∈ L.tail, isEolB x = false := by
+  induction s generalizing cur with
+  | nil => intro L hL; simp [codeLinesGo] at hL; subst hL; exact hc
+  | cons b s ih =>
+    intro L hL
+    by_cases hb : isEolB b = true
+    · simp only [codeLinesGo, hb, if_true, List.mem_cons] at hL
+      rcases hL with rfl | hL
+      · exact hc
+      · exact ih [b] (by simp) L hL
+    · simp only [codeLinesGo, hb, Bool.false_eq_true, if_false] at hL
+      refine ih (b :: cur) ?_ L hL
+      intro x hx
+      simp only [List.reverse_cons] at hx
+      cases hcr : cur.reverse with
+      | nil => rw [hcr] at hx; simp at hx
+      | cons y ys =>
+        rw [hcr] at hx hc
+        simp at hx hc
+        rcases hx with hx | rfl
+        · exact hc x hx
+        · simpa using hb
+
+theorem codeLines_dropEol (t : Bytes) : ∀ L ∈ codeLines t, L.dropWhile isEolB = stripEol L := by
+  intro L hL
+  have htail : ∀ x ∈ L.tail, isEolB x = false := by
+    cases t with
+    | nil => simp [codeLines] at hL
+    | cons b s => exact codeLinesGo_tail s [b] (by simp) L hL
+  cases L with
+  | nil => rfl
+  | cons b s =>
+    by_cases hb : isEolB b = true
+    · simp only [List.dropWhile, hb, stripEol, if_true]
+      cases s with
+      | nil => rfl
+      | cons c s => simp [List.dropWhile, htail c (by simp)]
+    · simp [List.dropWhile, hb, stripEol]
+
+theorem csvLinesOf_codeLines (t : Bytes) :
+    csvLinesOf t = ((codeLines t).map fun L => L.dropWhile isEolB).filter fun l => !l.isEmpty := by
+  have hmap : (codeLines t).map (fun L => L.dropWhile isEolB) = (codeLines t).map stripEol :=
+    List.map_congr_left (codeLines_dropEol t)
+  rw [hmap, csvLinesOf, codeLines_strip t]
+  cases t with
+  | nil => simp [codeLines]
+  | cons b s => by_cases hb : isEolB b = true <;> simp [hb]
+
+theorem mapM_filter_none {α β : Type} (f : α → Res (Option β)) (p : α → Bool) (xs : List α)
+    (h : ∀ x, p x = false → f x = .ok none) :
+    ((xs.filter p).mapM f).map (List.filterMap id) = (xs.mapM f).map (List.filterMap id) := by
+  induction xs with
+  | nil => rfl
+  | cons x xs ih =>
+    by_cases hp : p x = true
+    · simp only [List.filter_cons, hp, if_true, List.mapM_cons, bind, Except.bind]
+      cases f x with
+      | error e => rfl
+      | ok o =>
+        simp only
+        cases h1 : (xs.filter p).mapM f <;> cases h2 : xs.mapM f <;> simp [h1, h2, Except.map, pure, Except.pure] at ih ⊢
+        · exact ih
+        · cases o <;> simp [ih]
+    · have hf := h x (by simpa using hp)
+      simp only [List.filter_cons, hp, Bool.false_eq_true, if_false, List.mapM_cons, hf, bind, Except.bind, ih]
+      cases xs.mapM f <;> simp [Except.map, pure, Except.pure]
+
+theorem csvLineS_nil (gC : Bytes → Res (Nat × Nat)) (prm : CsvParam) : csvLineS gC prm [] = .ok none := by
+  simp [csvLineS, dropBOM]
+
+theorem csv_block_eq {conv : Conv} {gR gI gQ : Bytes → Res Nat} {gC : Bytes → Res (Nat × Nat)}
+    (hL : conv.LocalWith gR gI gQ gC) (prm : CsvParam) (t : Bytes) (hn : ∀ b ∈ t, nonNulB b = true)
+    (hb : t.length + 2 < 2 ^ 64) :
+    csvRows Fixes.repaired conv prm t =
+      ((codeLines t).mapM (csvRecS gC prm)).bind fun outs => rowsOf (build (outs.filterMap id)) := by
+  have h0 := csv_block_eq_at hL prm (At.whole t [0]) (term_whole t) (by simp) (by omega) hb
+    (fun x hx => by simpa [nonNulB] using hn x hx)
+  unfold csvRows; rw [h0]
+  have hrec : csvRecS gC prm = fun L => (csvLineS gC prm (L.dropWhile isEolB)).map (Option.map csvRec) := by
+    funext L; rfl
+  have hC := mapM_filter_none (csvLineS gC prm) (fun l => !l.isEmpty) ((codeLines t).map fun L => L.dropWhile isEolB)
+    (fun x hx => by
+      have : x = [] := by cases x <;> simp_all
+      subst this; exact csvLineS_nil gC prm)
+  rw [← csvLinesOf_codeLines, mapM_map'] at hC
+  rw [hrec, mapM_map_res]
+  cases h1 : (csvLinesOf t).mapM (csvLineS gC prm) <;>
+    cases h2 : (codeLines t).mapM (fun x => csvLineS gC prm (x.dropWhile isEolB)) <;>
+    simp [h1, h2, Except.map] at hC ⊢
+  · simp [Except.bind, hC]
+  · simp only [Except.bind, filterMap_map_option, hC]
+
+theorem csvRecS_strip (gC : Bytes → Res (Nat × Nat)) (prm : CsvParam) (L : Bytes) :
+    csvRecS gC prm (stripEol L) = csvRecS gC prm L := by
+  have : (stripEol L).dropWhile isEolB = L.dropWhile isEolB := by
+    cases L with
+    | nil => rfl
+    | cons b s => by_cases hb : isEolB b = true <;> simp [stripEol, hb, List.dropWhile]
+  unfold csvRecS; rw [this]
+
+theorem csv_lineFormat {conv : Conv} {gR gI gQ : Bytes → Res Nat} {gC : Bytes → Res (Nat × Nat)}
+    (hL : conv.LocalWith gR gI gQ gC) (prm : CsvParam) :
+    LineFormat nonNulB (csvRows Fixes.repaired conv prm) (csvRecS gC prm) :=
+  LineFormat.ofBlockEq (csv_block_eq hL prm) (csvRecS_strip gC prm)
+    (by simp [csvRecS, csvLineS_nil, Except.map])
+    (Or.inl (fun L r h => by
+      simp only [csvRecS] at h
+      cases hs : csvLineS gC prm (L.dropWhile isEolB) with
+      | error e => simp [hs, Except.map] at h
+      | ok o =>
+        cases o with
+        | none => simp [hs, Except.map] at h
+        | some l => simp [hs, Except.map] at h; subst h; rfl))
+
 end DmlcModel.Parse
